@@ -136,6 +136,10 @@ def scope_inputs(scope, n1, n2):
         return "type Query { f(a: Int, b: Int): Int }\n", f"query P(${n1}: Int, ${n2}: Int) {{ f(a: ${n1}, b: ${n2}) }}\n"
     if scope == "operations":
         return "type Query { a: Int b: Int }\n", f"query {n1} {{ a }}\nquery {n2} {{ b }}\n"
+    if scope == "typename_alias":
+        return "type Query { user: User }\ntype User { id: ID! name: String }\n", f"query P {{ user {{ __typename {n1}: __typename zq: id }} }}\n"
+    if scope == "subscription_variables":
+        return "type Query { a: Int }\ntype Subscription { f(a: Int, b: Int): Int }\n", f"subscription P(${n1}: Int, ${n2}: Int) {{ f(a: ${n1}, b: ${n2}) }}\n"
     if scope == "enum_values":
         return f"type Query {{ e: E }}\nenum E {{ {n1} {n2} }}\n", "query P { e }\n"
     if scope == "enum_value_as_default":
@@ -143,7 +147,7 @@ def scope_inputs(scope, n1, n2):
     raise ValueError(scope)
 
 
-SCOPES = ["response_keys", "result_fields", "input_fields", "variables", "operations", "enum_values", "enum_value_as_default"]
+SCOPES = ["response_keys", "result_fields", "input_fields", "variables", "operations", "enum_values", "enum_value_as_default", "typename_alias", "subscription_variables"]
 
 
 def scope_case(case):
@@ -183,7 +187,8 @@ def scope_case(case):
             captured.append(json.loads(request.content))
             body = captured[-1]
             data = {"response_keys": {"user": {n1: "i", n2: "n"}}, "result_fields": {"user": {n1: "i", n2: "n"}}, "input_fields": {"f": 1},
-                    "variables": {"f": 1}, "operations": {"a": 1, "b": 2}, "enum_values": {"e": n2}, "enum_value_as_default": {"f": n1}}[scope]
+                    "variables": {"f": 1}, "operations": {"a": 1, "b": 2}, "enum_values": {"e": n2}, "enum_value_as_default": {"f": n1},
+                    "typename_alias": {"user": {"__typename": "User", n1: "User", "zq": "i"}}, "subscription_variables": {"f": 1}}[scope]
             return httpx.Response(200, json={"data": data})
         c = clients.make_client(mod.Client, is_async, handler)
         methods = [m for m in vars(mod.Client) if not m.startswith("__")]
@@ -199,6 +204,30 @@ def scope_case(case):
                 for fn in type(u).model_fields:
                     if keyword.iskeyword(fn) or not fn.isidentifier() or fn in dir(pydantic.BaseModel):
                         P.append(("bad_python_name", f"field {fn!r}"))
+            elif scope == "typename_alias":
+                r = clients.call(is_async, c.p)
+                u = r.user
+                want = {"__typename": "User", n1: "User", "zq": "i"}
+                got = u.model_dump(by_alias=True)
+                if got != want:
+                    P.append(("names_merged", f"response {want} read back as {got}"))
+                if len(type(u).model_fields) != 3:
+                    P.append(("names_merged", f"model has fields {list(type(u).model_fields)}"))
+            elif scope == "subscription_variables":
+                import inspect
+                from mc import inputs
+                params = [p for p in inspect.signature(mod.Client.p).parameters if p not in ("self", "kwargs")]
+                if len(params) != 2:
+                    P.append(("names_merged", f"method parameters {params}"))
+                else:
+                    subs, (st_, val) = inputs.call_and_capture_ws(mod, mods, mod.Client, "p", {params[0]: 1, params[1]: 2}, data={"f": 7})
+                    if st_ != "ok" or len(subs) != 1:
+                        P.append(("unusable", f"subscription failed: {val!r} ({len(subs)} subscribe frames)"))
+                    else:
+                        if subs[0].get("variables") != {n1: 1, n2: 2}:
+                            P.append(("names_merged", f"sent variables {subs[0].get('variables')} for parameters {params}"))
+                        if [getattr(x, "f", None) for x in val] != [7]:
+                            P.append(("server_data_replaced", f"the iterator yielded {val!r}, the server sent f=7"))
             elif scope == "input_fields":
                 I = mod.I
                 fields = list(I.model_fields)
@@ -320,6 +349,10 @@ def module_collision_case(opname, cfg):
     return out
 
 
+# variables named like the locals of the generated subscription method (and a few ordinary ones)
+SUB_NAMES = {"query", "variables", "data", "response", "gql", "self", "kwargs", "Query", "Data", "Variables", "_data", "_query", "operation_name", "class", "zz", "camelCase", "id", "copy"}
+
+
 def colliding_pairs(images, names):
     """Pairs of distinct names merged by the mapping, per scope's call site."""
     site_of = {"response_keys": "result_or_input_field", "result_fields": "result_or_input_field", "input_fields": "result_or_input_field",
@@ -354,6 +387,8 @@ def main(tier):
     for n in cat:
         for scope in SCOPES:
             if scope in ("enum_values", "enum_value_as_default") and n in ("true", "false", "null"):
+                continue
+            if scope == "subscription_variables" and n not in SUB_NAMES:
                 continue
             for snake in ((True, False) if scope != "operations" else (True,)):
                 cases.append((scope, n, "zzOther", snake))
